@@ -179,6 +179,9 @@ DUP_PROGRAMS = [
 
 # several files that hold code at the same line/column/offset (anything keyed on a range alone confuses them)
 TWIN_FILES = [
+    # the same rejected line at the same position of the base file and of an included file
+    {"main.s": ".globl main\n.include \"u.s\"\nmain:\n    li a7, 10\n    ecall\n", "u.s": ".globl util\n    li a6, 1\n"},
+    {"main.s": "addi a0, a0\n.include \"u.s\"\n    li a7, 10\n    ecall\n", "u.s": "addi a0, a0\n"},
     {"main.s": "main:\n    li a0, 1\n    call pick\n    li a7, 10\n    ecall\npick:\n    beqz a0, other\n.include \"a.s\"\nother:\n.include \"b.s\"\n",
      "a.s": "    li a0, 1\n    ret\n", "b.s": "    li a0, 2\n    ret\n"},
     {"main.s": "main:\n    beqz a0, other\n.include \"a.s\"\nother:\n.include \"b.s\"\n",
